@@ -370,6 +370,11 @@ pub fn check(res: &RunResult, cfg: &NodeCfg, model: &mut Model) -> Findings {
         }
         if e.replies.len() != 1 {
             f.items.push(("C05", format!("query-gets-{}-replies kind={}", e.replies.len(), e.parsed.q), format!("{} from {} with tid {} got {} replies", e.parsed.q, src, hex(&e.parsed.tid), e.replies.len())));
+            // C17: "a get_peers reply stays within that size however many peers are stored" — a reply
+            // that is never emitted (e.g. built too large and refused by the socket layer) does not
+            if e.replies.is_empty() && e.parsed.q == "get_peers" {
+                f.items.push(("C17", "get_peers-reply-not-emitted".into(), format!("get_peers from {} with a {}-byte tid at {} ms got no reply datagram at all", src, e.parsed.tid.len(), t)));
+            }
             continue;
         }
         f.replies_checked += 1;
